@@ -844,6 +844,82 @@ def r6_threads(ctx, sym):
               "an internal error in a threaded execution is printed by the threading machinery and lost")
 
 
+def r7_compile_error_without_position(ctx, sym):
+    ctx.rule('R7', "a text that fails to compile is reported, not raised: CPython's compile() error for a text with a "
+                   "null byte carries no line, no offset, no end position, no text and no file name (all None), an "
+                   "ordinary SyntaxError carries all of them. For both, pedal's own ExpandedTraceback (constructor, "
+                   "build_traceback, FakeFrame, _fix_frame_line, format_traceback, format_line) is executed abstractly "
+                   "with the arguments _capture_exception gives it, under each interpreter-version switch pedal tests "
+                   "and with the methods of every Formatter class pedal ships: the traceback text is produced without "
+                   "raising")
+    from .. import symexec
+    from ..fdeval import Obj
+    import builtins
+    ux = ctx.repo.module('pedal.utilities.exceptions')
+    tb_init = ux.func('ExpandedTraceback.__init__')
+    bt = ux.func('ExpandedTraceback.build_traceback')
+    ft = ux.func('ExpandedTraceback.format_traceback')
+    for f_ in (tb_init, bt, ft):
+        ctx.analysed_function(ux, f_)
+    fm = sym.find_class('pedal.core.formatting', 'Formatter')
+    classes = sorted(sym.subclasses(fm), key=lambda c: (c.module.name, c.name))
+    ctx.floor('R7', 'Formatter classes shipped', len(classes), 5)
+    versions = {'3.13': dict(IS_AT_LEAST_PYTHON_313=True, IS_AT_LEAST_PYTHON_311=True, IS_AT_LEAST_PYTHON_310=True),
+                '3.11/3.12': dict(IS_AT_LEAST_PYTHON_313=False, IS_AT_LEAST_PYTHON_311=True, IS_AT_LEAST_PYTHON_310=True),
+                '3.10': dict(IS_AT_LEAST_PYTHON_313=False, IS_AT_LEAST_PYTHON_311=False, IS_AT_LEAST_PYTHON_310=True),
+                '3.9': dict(IS_AT_LEAST_PYTHON_313=False, IS_AT_LEAST_PYTHON_311=False, IS_AT_LEAST_PYTHON_310=False)}
+    payloads = {
+        'null byte (no position, no file name)': dict(lineno=None, offset=None, end_lineno=None, end_offset=None,
+                                                      filename=None, text=None,
+                                                      msg='source code string cannot contain null bytes'),
+        'ordinary syntax error': dict(lineno=2, offset=5, end_lineno=2, end_offset=6, filename='answer.py',
+                                      text='b = (1\n', msg="'(' was never closed")}
+    lines = ['a = 1', 'b = (1', 'print(a)']
+
+    def b_isinstance(o, t):
+        ts = t if isinstance(t, tuple) else (t,)
+        if isinstance(o, Obj) and 'exc_kind' in o.attrs:
+            k = getattr(builtins, o.attrs['exc_kind'])
+            return any(isinstance(x, type) and issubclass(k, x) for x in ts)
+        return isinstance(o, tuple(x for x in ts if isinstance(x, type)))
+    for ci in classes:
+        fmt = symexec.self_obj(ci.module, ci.name)
+        finit = sym.method(ci, '__init__')
+        if finit is not None:
+            _, raised0 = symexec.run(symexec.new_fd(sym, ci.module), finit[1], [Obj('report')], bound_self=fmt,
+                                     what='%s.__init__' % ci.name)
+            ctx.require(raised0 is None, "%s(report) constructs" % ci.name)
+        for vname, flags in versions.items():
+            for pname, payload in payloads.items():
+                exc = Obj('exception', exc_kind='SyntaxError', **payload)
+                me = symexec.self_obj(ux, 'ExpandedTraceback')
+                fd = symexec.new_fd(sym, ux, calls={
+                    'traceback.TracebackException': lambda *a, **k: Obj('TracebackException', stack=[]),
+                    # the traceback of an error raised by compile() has one frame: Sandbox._execute itself
+                    'traceback.extract_tb': lambda tb, **k: [('/site-packages/pedal/sandbox/sandbox.py', 185, '_execute',
+                                                              "compiled_code = compile(code, filename, 'exec')")],
+                    'isinstance': b_isinstance}, extra=dict(flags, SyntaxError=SyntaxError))
+                stage = 'ExpandedTraceback(...)'
+                _, raised = symexec.run(fd, tb_init, [exc, ('T', exc, None), False, {'answer.py'}, {}, {'answer.py'},
+                                                      list(lines), {'answer.py': list(lines)}], bound_self=me,
+                                        what='ExpandedTraceback.__init__')
+                if raised is None:
+                    stage = 'build_traceback()'
+                    frames, raised = symexec.run(fd, bt, [], bound_self=me, what='ExpandedTraceback.build_traceback')
+                if raised is None:
+                    stage = 'format_traceback()'
+                    text, raised = symexec.run(fd, ft, [frames, fmt], bound_self=me,
+                                               what='ExpandedTraceback.format_traceback')
+                ctx.check(raised is None, 'R7', 'compile-error[%s,%s,%s]' % (pname.split(' (')[0], vname, ci.name), ux,
+                          getattr(raised, 'node', None) or ft,
+                          "for the SyntaxError of a %s, under the Python %s switches and formatter %s, %s raises %s (%s) "
+                          "while the failure is being recorded" % (
+                              pname, vname, ci.name, stage, raised.kind if raised is not None else '',
+                              raised.detail if raised is not None else ''),
+                          "run() on the student text 'a = 1\\0' raises TypeError into the instructor script instead of "
+                          "returning with a runtime feedback", construct=ci.name)
+
+
 def run(ctx):
     sym = Symbols(ctx.repo)
     r1_sites_guarded(ctx, sym)
@@ -852,6 +928,7 @@ def run(ctx):
     r4_recording_robust(ctx, sym)
     r5_block_list(ctx, sym)
     r6_threads(ctx, sym)
+    r7_compile_error_without_position(ctx, sym)
     ctx.assume("unbounded recursion surfaces as RecursionError (an Exception atom); interpreter exit by means other "
                "than SystemExit (os._exit, segfault) and resource exhaustion are not decided")
     ctx.assume("hostile-class protocols other than string conversion (__eq__, __bool__, attribute stores on the "
